@@ -1,0 +1,22 @@
+//go:build verif
+
+package rsync
+
+// verifC17Receiver adapts a callback to the Receiver interface (whose finalize
+// method is unexported).
+type verifC17Receiver struct {
+	receive func(*Transmission) error
+}
+
+func (r *verifC17Receiver) Receive(t *Transmission) error { return r.receive(t) }
+
+func (r *verifC17Receiver) finalize() error { return nil }
+
+// VerifC17NewReceiver creates a Receiver that hands every transmission to the
+// callback.
+func VerifC17NewReceiver(receive func(*Transmission) error) Receiver {
+	return &verifC17Receiver{receive: receive}
+}
+
+// VerifC17Finalize finalizes a receiver.
+func VerifC17Finalize(r Receiver) error { return r.finalize() }
